@@ -63,6 +63,7 @@ def run(ctx, vlib):
                 failing.append(dict(driver="arch", case=line, implementation=o, model=om[i], judge="FAIL",
                                     why="loading the same MsgPack document from a stream reports differently than loading it from memory (%s)" % oi[i][:200]))
     known_lines, known_cases = A.known_findings("C17", vlib, impl)
+    diffs += A.STALE_KNOWN
     failing = [f for f in failing if f["case"] not in known_cases]
     samples = [dict(case=cases[i], implementation=oi[i], model=om[i]) for i in range(0, min(len(cases), 4))]
     return dict(evaluations=len(cases) + len(mp_idx), distinct_nontrivial=nt, samples=samples, classes=classes, failing=failing,
